@@ -713,6 +713,8 @@ def main(tier):
     import probepure, llir
     rep.attempt(probepure.check_probe_pure, rep, llir.library('default'))
     rep.attempt(probepure.check_trunc_cmp, rep, llir.library('default'))
+    rep.attempt(probepure.check_zero_run_siblings, rep, llir.library('default'))
+    rep.attempt(probepure.check_refill_in_loop, rep, llir.library('default'))
     import acct, c19, llir, c17
     rep.attempt(c17.check_dict_tail, rep, llir.library('default'))
     rep.attempt(acct.check, rep, 'i', 50, c19.field_offsets('struct isal_zstream', ['next_in', 'avail_in', 'total_in', 'next_out', 'avail_out', 'total_out']), c19.field_offsets('struct inflate_state', ['next_in', 'avail_in', 'next_out', 'avail_out', 'total_out']), llir.library('default'))
